@@ -192,18 +192,22 @@ Definition with_lock (body : M) : M := fun e w ls =>
     end
   else body e w ls.
 
-(* AsyncTCPNetworkClient.aclose *)
+(* AsyncTCPNetworkClient.aclose.  Unfixed code: async with self.__send_lock: await endpoint.aclose().
+   Fixed code (meta/fixes/C14_F7.diff, client_forced_fallback = true): the lock is acquired explicitly and an
+   interrupted acquisition force-closes the transport (no lock, no guard) before re-raising. *)
 Definition client_aclose (t : tr) : M := fun e w ls =>
-  match with_lock (guarded_aclose t) e w ls with
-  | (ROk, w1, ls1) => (ROk, w1, ls1)
-  | (x, w1, ls1) =>
-      if client_forced_fallback && match x with RCancel | RForced | RShutdown => true | _ => false end then
-        match forceful (tr_aclose t) e w1 ls1 with
-        | (ROk, w2, ls2) => (x, w2, ls2)
-        | other => other
-        end
-      else (x, w1, ls1)
-  end.
+  if w_lock w then
+    match lock_point e w ls with
+    | (ROk, w1, ls1) => guarded_aclose t e (release_sender w1) ls1
+    | (x, w1, ls1) =>
+        if client_forced_fallback then
+          match forceful (tr_aclose t) e w1 ls1 with
+          | (ROk, w2, ls2) => (x, w2, ls2)
+          | other => other
+          end
+        else (x, w1, ls1)
+    end
+  else guarded_aclose t e w ls.
 
 (* _ConnectedClientAPI.aclose *)
 Definition api_aclose (t : tr) : M := fun e w ls =>
